@@ -27,11 +27,22 @@ func devMain(args []string) int {
 		show := fs.Int("show", 5, "")
 		fs.Parse(args[1:])
 		ft, ok := fam.Presets[*feat]
-		if !ok {
+		if !ok && *feat != "lib" && *feat != "chain" && *feat != "shadow" && *feat != "groups" {
 			fmt.Println("unknown preset")
 			return 2
 		}
 		cats := fam.RandomFamily(*seed, *n, ft)
+		switch *feat {
+		case "chain":
+			cats = fam.Sample(fam.Chain([]cat.Opts{{Recover: true}}, false), *seed, *n)
+		case "shadow":
+			cats = fam.Sample(fam.Shadow([]cat.Opts{{Recover: true}}, false), *seed, *n)
+		case "groups":
+			cats = fam.Sample(fam.Groups([]cat.Opts{{Recover: true}}, false), *seed, *n)
+		}
+		if *feat == "lib" {
+			cats = fam.LibFamily(*seed, *n, []cat.Opts{{Recover: true}, {Recover: false}}, true)
+		}
 		st, err := coverStage(*feat, cats, Bounds{MaxInv: *inv, MaxFaults: *faults, FaultKinds: []string{"err", "panic"}}, 10*time.Minute, *show)
 		if st != nil {
 			fmt.Println(st.summary())
@@ -119,6 +130,16 @@ func devMain(args []string) int {
 		if err != nil {
 			fmt.Println("error:", err)
 			return 2
+		}
+		return 0
+	case "graph":
+		rep := &Report{Prop: "C05", Tier: "quick", Seed: envSeed(), Start: time.Now(), Notes: map[string]int{}, NoteEx: map[string]string{}}
+		graphStage(rep, properties["C05"])
+		for _, f := range rep.Findings {
+			fmt.Println("FINDING", f.Kind, f.Detail)
+		}
+		for _, e := range rep.Infra {
+			fmt.Println("INFRA", e)
 		}
 		return 0
 	case "cat":
